@@ -62,15 +62,32 @@ REQUEST_CONTAINERS = {'args', 'form', 'values', 'files', 'cookies', 'headers'}
 
 
 def middleware_functions(repo):
-    """[(FuncInfo)] -- every function under clastic/middleware/ whose first non-self parameter is ``next``."""
+    """[(FuncInfo)] -- every function under clastic/middleware/ whose first non-self parameter is ``next`` -- also of a class /
+    function that a module of that package imports from elsewhere in the analysed tree (a middleware that moved and is imported
+    back under its name is still a built-in middleware)."""
     out = []
+
+    def take(fi):
+        ps = [p for p in fi.params() if p not in ('self', 'cls')]
+        if ps and ps[0] == 'next' and not any(fi is f for f in out):
+            out.append(fi)
     for m in repo.all_internal_modules():
         if not m.name.startswith('clastic.middleware'):
             continue
         for fi in m.functions.values():
-            ps = [p for p in fi.params() if p not in ('self', 'cls')]
-            if ps and ps[0] == 'next':
-                out.append(fi)
+            take(fi)
+        for name in sorted(m.imports):
+            try:
+                kind, om, obj = repo.resolve(m, name)
+            except Exception:
+                continue
+            if om is None or om.external or om.name.startswith('clastic.middleware') or not repo.is_internal(om.name):
+                continue
+            if kind == 'func':
+                take(obj)
+            elif kind == 'class':
+                for fi in obj.methods.values():
+                    take(fi)
     return out
 
 
